@@ -13,9 +13,9 @@ git -C /repo worktree remove --force "$WT" >/dev/null 2>&1
 rm -rf "$WT" "$WT-build" "$WT-out"
 git -C /repo worktree add --detach "$WT" HEAD >/dev/null 2>&1 || { echo "worktree failed"; exit 3; }
 if [[ "$CHG" == -R:* ]]; then
-    git -C "$WT" show "${CHG#-R:}" | git -C "$WT" apply -R || { echo "revert failed"; exit 3; }
+    git -C "$WT" show "${CHG#-R:}" | git -C "$WT" apply -R || { echo "revert failed"; git -C /repo worktree remove --force "$WT" >/dev/null 2>&1; rm -rf "$WT"; exit 3; }
 else
-    git -C "$WT" apply --3way "$CHG" 2>/dev/null || git -C "$WT" apply "$CHG" || patch -d "$WT" -p1 --fuzz=3 < "$CHG" || { echo "patch failed"; exit 3; }
+    git -C "$WT" apply --3way "$CHG" 2>/dev/null || git -C "$WT" apply "$CHG" || patch -d "$WT" -p1 --fuzz=3 < "$CHG" || { echo "patch failed"; git -C /repo worktree remove --force "$WT" >/dev/null 2>&1; rm -rf "$WT"; exit 3; }
 fi
 VERIF_REPO="$WT" VERIF_BUILD="$WT-build" VERIF_OUT="$WT-out" "$V/check" "$PROP" "$TIER" "$@" > "$WT-out.log" 2>&1
 RC=$?
